@@ -55,6 +55,12 @@ Decided structurally (clauses that are necessary for the property; the rendered 
             A row writer that does not call itself but still reaches descendants (flat pass over all_children, explicit
             stack) is UNDECIDED: the recursion-based obligations do not describe it (C20-r83: depth tracked
             incrementally in such a pass - not decidable from the shape).
+* round 9 - a day / header line collected in a list first (`line = [<date cell>]; line.append(..)`) and emitted in one loop
+            is counted through the list (initial elements + appends, also when the list is created inside a while loop);
+            a helper method called on a local receiver inside text_repr (`r._merge_widths(widths_map)`) is read in place
+            (`_splice_receiver_helpers`); rows filtered through an intermediate comprehension are seen as filtered.
+            Refuted: a parent cell that prints a value handed down by the caller instead of task.parent; a depth kept in
+            a class attribute counted up/down around the recursion without `finally:` and without a reset in _Repr.repr.
 * depth   - indentation multiplied by a value read off the printed task alone (`len(task.all_parents)`, a helper that
             only receives the task) is refuted: the level is relative to the printed tasks and only the recursion knows it.
 
@@ -213,9 +219,88 @@ def _explode_param_object(ctx):
         return
 
 
+def _splice_receiver_helpers(ctx, qual):
+    """inside function `qual`: a statement `r.helper(a, b)` on a local receiver, where `helper` is a procedure-like method that
+    exactly one package class defines and that is not part of the table API, is replaced by the helper's body with self -> r
+    and the parameters -> the arguments (the engine's normaliser only splices helpers called on self).  Purely syntactic, done
+    before cfg / flow / call graph look at the function."""
+    from sa.model import AnchorMissing
+    import copy as _copy
+    prog = ctx.prog
+    try:
+        f = prog.func(qual)
+    except AnchorMissing:
+        return
+    api = {'repr', 'add_cell', 'get_cell', 'new_row', 'new_cell', 'text_repr', 'append', 'extend', 'setdefault', 'get', 'values', 'items'}
+    used = {n.id for n in ast.walk(f.node) if isinstance(n, ast.Name)} | set(f.params)
+    done = []
+
+    def helper_of(name, nargs):
+        cands = [g for g in prog.all_funcs() if g.name == name and g.kind == 'method' and g.cls is not None and len(g.params) == nargs + 1]
+        if len(cands) != 1:
+            return None
+        g = cands[0]
+        a = g.node.args
+        if a.vararg or a.kwarg or a.kwonlyargs or a.defaults or a.posonlyargs:
+            return None
+        for n in ast.walk(g.node):
+            if isinstance(n, (ast.Yield, ast.YieldFrom, ast.Global, ast.Nonlocal, ast.FunctionDef, ast.Lambda)) and n is not g.node:
+                return None
+            if isinstance(n, ast.Return) and n.value is not None:
+                return None
+            if isinstance(n, ast.Return):
+                return None
+        return g
+
+    def rewrite(stmts):
+        out = []
+        for st in stmts:
+            for fld in ('body', 'orelse', 'finalbody'):
+                if isinstance(getattr(st, fld, None), list) and not isinstance(st, (ast.FunctionDef, ast.ClassDef)):
+                    setattr(st, fld, rewrite(getattr(st, fld)))
+            c = st.value if isinstance(st, ast.Expr) else None
+            g = None
+            if isinstance(c, ast.Call) and isinstance(c.func, ast.Attribute) and isinstance(c.func.value, ast.Name) \
+                    and c.func.attr not in api and not c.keywords and all(isinstance(a, (ast.Name, ast.Constant)) for a in c.args) \
+                    and c.func.value.id != (f.self_name or ''):
+                g = helper_of(unmangle(c.func.attr), len(c.args))
+            if g is None:
+                out.append(st)
+                continue
+            sub = {g.params[0]: c.func.value}
+            sub.update(dict(zip(g.params[1:], c.args)))
+            stores = {n.id for n in ast.walk(g.node) if isinstance(n, ast.Name) and isinstance(n.ctx, ast.Store)}
+            if stores & set(g.params):
+                out.append(st)          # a parameter is re-bound inside the helper: not a plain substitution
+                continue
+            ren = {v: (v if v not in used else f"{v}__r{len(done) + 1}") for v in stores}
+
+            class Tr(ast.NodeTransformer):
+                def visit_Name(self, n):
+                    if n.id in sub and isinstance(n.ctx, ast.Load):
+                        return ast.copy_location(_copy.deepcopy(sub[n.id]), n)
+                    if n.id in ren:
+                        return ast.copy_location(ast.Name(id=ren[n.id], ctx=n.ctx), n)
+                    return n
+            body = [b for b in _copy.deepcopy(g.node.body) if not (isinstance(b, ast.Expr) and isinstance(b.value, ast.Constant))]
+            body = [ast.copy_location(Tr().visit(b), st) for b in body]
+            for b in body:
+                for n in ast.walk(b):
+                    ast.copy_location(n, st) if not hasattr(n, 'lineno') else None
+            used.update(ren.values())
+            done.append(g.qual)
+            out.extend(body or [ast.copy_location(ast.Pass(), st)])
+        return out
+    f.node.body = rewrite(f.node.body)
+    if done:
+        ast.fix_missing_locations(f.node)
+        ctx.assume(f"{qual}: helper methods called on a local receiver are read in place: " + ', '.join(done))
+
+
 def check(ctx):
     _classmethods_as_static(ctx)
     _explode_param_object(ctx)
+    _splice_receiver_helpers(ctx, 'utils.TextTable.text_repr')
     ctx.assume("attribute values reach the table as str (str(), strftime, literals); multi-line texts are out of scope")
     ctx.assume("`fields` is a collection that can be iterated more than once (header and every task row)")
     ctx.assume("term expansion assumes no aliasing writes between a definition and its use inside one function")
@@ -297,6 +382,30 @@ def _visits_without_recursion(f):
         return None
     return (f"{f.name} does not call itself but reads `{src(hit)}`: descendants are printed by a flat pass / explicit stack, "
             f"which the rule cannot follow")
+
+
+def _unprotected_depth_counter(ctx, f, b):
+    """the indentation multiplier b is a class / module attribute (`_Repr.__level`) that the row writer itself counts up
+    and down around its recursion, the count-down is not in a `finally:` and _Repr.repr does not reset it: text of the
+    refutation; None when b is not such a counter or it is protected one way or the other"""
+    path = attr_path(b)
+    if path is None or '.' not in path:
+        return None
+    root = path.split('.')[0]
+    if root in f.params or flow_of(f).defs_of(root):
+        return None
+    ups = [n for n in walk_no_nested(f.node) if isinstance(n, ast.AugAssign) and attr_path(n.target) == path]
+    if not any(isinstance(n.op, ast.Add) for n in ups) or not any(isinstance(n.op, ast.Sub) for n in ups):
+        return None
+    in_finally = {id(x) for t_ in walk_no_nested(f.node) if isinstance(t_, ast.Try) for st_ in t_.finalbody for x in ast.walk(st_)}
+    if any(isinstance(n.op, ast.Sub) and id(n) in in_finally for n in ups):
+        return None
+    top = ctx.prog.func(REPR)
+    if any(isinstance(n, ast.Assign) and any(attr_path(t_) == path for t_ in n.targets) for n in walk_no_nested(top.node)):
+        return None
+    return (f"the depth is kept in the shared attribute `{unmangle(path.split('.')[-1])}` that {f.name} counts up and down around its "
+            f"recursion; the count-down is not in a `finally:` and _Repr.repr does not reset it, so a sheet whose printing raises "
+            f"inside a nested row leaves the counter raised and every later sheet is indented too deep")
 
 
 def _subtree_qual(ctx):
@@ -1028,6 +1137,9 @@ def _name_cells(ctx, o, f, P, scope, def_ok, within=None):
                                                       f"start at the left margin")
                         elif isinstance(b, ast.Constant):
                             o.refute(f, node, ind[0], f"indentation is the constant `{src(ind[0])}`: it does not follow the level")
+                        elif not pn and _unprotected_depth_counter(ctx, f, b):
+                            abs_depth = True
+                            o.refute(f, node, ind[0], _unprotected_depth_counter(ctx, f, b))
                         else:
                             o.undecided(f, node, ind[0], f"indentation multiplier `{src(b)}` is not the level parameter")
                         good = False
@@ -1049,7 +1161,19 @@ def _name_cells(ctx, o, f, P, scope, def_ok, within=None):
                     elif m:
                         o.refute(f, node, sub, f"cell text is `{src(xe)}`: expected the value of field `{fvar}` of the printed task `{P['task']}`")
                     else:
-                        o.undecided(f, node, sub, f"cell text `{src(xe)[:100]}` is not __get_field_value(task, field)")
+                        # a link column special-cased in the row writer itself: `elif f == 'parent': <linked id of (task, X)>`
+                        col = next((q_[1] for q_ in (eq_const(t_, p_) for t_, p_ in allc) if q_ and q_[2] and isinstance(q_[0], ast.Name)
+                                    and q_[0].id == fvar and q_[1] in ('parent',)), None)
+                        one_pat = _link_helpers(ctx)['one_pat'] if col else None
+                        m2 = match(one_pat, Expander(prog, f, ctx.typer, inline=False).expand(sub, at)) if one_pat else None
+                        if m2 and match(P['task'], m2['a']) and match(f"{P['task']}.{col}", m2['b']):
+                            o.site(f, node, f"{col} cell = linked id of ({P['task']}, {P['task']}.{col})")
+                        elif m2 and match(P['task'], m2['a']):
+                            o.refute(f, node, sub, f"the {col} column shows the linked id of `{src(m2['b'])}` - a value handed to "
+                                                   f"{f.name} by its caller - instead of `{P['task']}.{col}`: a row whose caller does not know "
+                                                   f"the task's {col} (the rows at the top of a sheet) shows an empty / wrong {col}")
+                        else:
+                            o.undecided(f, node, sub, f"cell text `{src(xe)[:100]}` is not __get_field_value(task, field)")
         if name_cases == 0:
             if vals and all(match(f"_Repr._Repr{prog.func(FIELD_VALUE).name}($t, $fld)", ex.expand(e, at)) for e, at, _ in vals):
                 o.refute(f, f.node, 'no name branch', "every cell, including the name, is printed by __get_field_value: the name is not indented")
@@ -2864,6 +2988,8 @@ def _usage(ctx):
                 return None
             elt, tgt, it, ifs = parts
             val = None
+        it, more = _unfilter_rows(it, rows)
+        ifs = list(ifs) + more
         if not (isinstance(tgt, ast.Name) and match(rows, it)):
             return None
         dt = f"{tgt.id}.date"
@@ -3145,6 +3271,9 @@ def _usage(ctx):
         m = match("set($x)", rit)
         inner_c = m['x'] if m else rit
         parts = facts.comp_parts(inner_c) if isinstance(inner_c, (ast.ListComp, ast.GeneratorExp, ast.SetComp)) else None
+        if parts:
+            it_, more_ = _unfilter_rows(parts[2], rows)
+            parts = (parts[0], parts[1], it_, list(parts[3]) + more_)
         if parts and (m or isinstance(inner_c, ast.SetComp)) and isinstance(parts[1], ast.Name) \
                 and match(f"{parts[1].id}.resource", parts[0]) and match(rows, parts[2]):
             if parts[3]:
@@ -3203,6 +3332,23 @@ def _usage(ctx):
                 else:
                     o2.refute(f, x, x, f"the first cell of a day line `{src(a0) if a0 is not None else ''}` does not show the day `{d}`")
     ctx.guarded(o, run)
+
+
+def _unfilter_rows(it, rows):
+    """`[x for x in ROWS if C]` (also wrapped in list(..) / a generator) used as the iterable of another comprehension is the
+    stored rows with the filter C: (ROWS expression, [C ..]); anything else is returned unchanged with no filter"""
+    e = it
+    if isinstance(e, ast.Call) and isinstance(e.func, ast.Name) and e.func.id in ('list', 'tuple') and len(e.args) == 1:
+        e = e.args[0]
+    if isinstance(e, (ast.ListComp, ast.GeneratorExp)) and len(e.generators) == 1:
+        g = e.generators[0]
+        if isinstance(g.target, ast.Name) and isinstance(e.elt, ast.Name) and e.elt.id == g.target.id and g.ifs:
+            inner, more = _unfilter_rows(g.iter, rows)
+            if match(rows, inner):
+                return inner, list(g.ifs) + more
+    if isinstance(e, ast.Call) and isinstance(e.func, ast.Name) and e.func.id == 'filter' and len(e.args) == 2 and match(rows, e.args[1]):
+        return e.args[1], [e.args[0]]
+    return it, []
 
 
 def _running_extreme_skipped(f, name, fn):
